@@ -61,8 +61,8 @@ claimed = {
    technique="SSA symbolic execution + SMT (symbolic monotone timestamps, integer-mode arithmetic) and bounded exploration with symbolic invalid-child pattern",
    design="5 C16"),
  "C03": dict(
-   text="Bounded exhaustive symbolic execution of the real address manager (Create, Open, Next*/Extend*Addresses, DeriveFromKeyPath, Address, MarkUsed, Lock/Unlock, restart) over memdb with the real key-derivation libraries bridged natively: after every step of every history of 3 (thorough 4) operations every issued address is looked up again and must carry the public key of m/purpose'/coin'/account'/branch/index, the true path/account/internal flag, the scope's address format, consecutive indices, and - whenever unlocked - a private key matching that public key.",
-   note="One concrete seed; data is concrete, so this is exhaustive exploration of operation histories, not a for-all-seeds result. Found and fixed the extendAddresses defect (known_findings.json).",
+   text="Bounded exhaustive symbolic execution of the real address manager (Create, Open, Next*/Extend*Addresses, DeriveFromKeyPath, Address, MarkUsed, Lock/Unlock, restart) over memdb with the real key-derivation libraries bridged natively: after every step of every history of 3 (thorough 4) operations every issued address is looked up again and must carry the public key of m/purpose'/coin'/account'/branch/index, the true path/account/internal flag, the scope's address format, consecutive indices, and - whenever unlocked - a private key matching that public key. A second harness family covers a second seeded account created during the history, an imported extended-public-key account (child b/i of the imported key) with an overriding address schema, private passphrase change, imported private key and script returned unchanged, the address string encoding the expected key in the expected format (oracle built with btcutil only) and a second wallet re-created from the same seed issuing the same addresses.",
+   note="Two concrete seeds (the second exercises the legacy hardened rule); data is concrete, so this is exhaustive exploration of operation histories, not a for-all-seeds result. Found and fixed the extendAddresses defect (known_findings.json).",
    technique="SSA symbolic execution (concrete data) with exhaustive history enumeration; native crypto bridge; native replay",
    design="5 C03"),
  "C05": dict(
